@@ -417,7 +417,13 @@ func (srv *server) registerClient(connect *packets.Connect, client *client) (ses
 	srv.statsManager.clientConnected(client.opts.ClientID)
 
 	if oldSession != nil {
-		if !oldSession.IsExpired(now) && !connect.CleanStart {
+		// The session expiry interval is measured from the end of the last network connection:
+		// offlineClients holds that deadline (a session which was online until now is not expired).
+		expired := false
+		if expiredTime, ok := srv.offlineClients[oldSession.ClientID]; ok && now.After(expiredTime) {
+			expired = true
+		}
+		if !expired && !connect.CleanStart {
 			sessionResume = true
 		}
 		// clean old session
